@@ -147,7 +147,7 @@ Section Abstract.
     end.
 
   Definition ds_merge (s o : ds) (e : env) : option (ds * env) :=
-    if d_ret o =? 0 then Some (s, e)                      (* other.is_empty(): silently ignored, before the dimension check *)
+    if d_n o =? 0 then Some (s, e)                        (* other.is_empty() <=> other.n_ == 0: ignored, before the dimension check *)
     else if negb (d_dim o =? d_dim s) then None
     else Some (run_compactions
                  {| d_k := d_k s; d_dim := d_dim s; d_ret := d_ret s + d_ret o; d_n := d_n s + d_n o;
@@ -163,7 +163,9 @@ Section Abstract.
     end.
   Definition est_num (s : ds) (q : point) : Z := est_levels q 1 (d_levels s).
   Definition ds_estimate (s : ds) (q : point) : option (Z * Z) :=
-    if d_ret s =? 0 then None else Some (est_num s q, d_n s).
+    if d_n s =? 0 then None                                      (* is_empty() <=> n_ == 0 *)
+    else if negb (Z.of_nat (length q) =? d_dim s) then None      (* dimension check, as in update *)
+    else Some (est_num s q, d_n s).
 
   (* -- iterator: every point with weight 2^level -- *)
   Fixpoint iter_levels (w : Z) (ls : list (list point)) : list (point * Z) :=
@@ -173,18 +175,22 @@ Section Abstract.
     end.
   Definition ds_iterate (s : ds) : list (point * Z) := iter_levels 1 (d_levels s).
 
-  (* -- serialize / deserialize round trip, as coded: an "empty" (num_retained = 0) sketch is written
-        without n and levels; the reader stops reading levels once num_retained points were read -- *)
+  (* -- serialize / deserialize round trip, as coded: an empty (n = 0) sketch is written without
+        num_retained, n and levels; the reader stops reading levels once num_retained points were read
+        (trailing empty levels are dropped) and keeps at least level 0.  DensityCodecProofs.v shows that this is
+        what the byte-level decoder makes of the byte-level encoder's image. -- *)
   Fixpoint take_levels (r : Z) (ls : list (list point)) : list (list point) :=
     if r <=? 0 then [] else
     match ls with
     | [] => []
     | l :: t => l :: take_levels (r - Z.of_nat (length l)) t
     end.
+  Definition ensure1 (ls : list (list point)) : list (list point) :=
+    match ls with [] => [[]] | _ => ls end.
   Definition ds_roundtrip (s : ds) : ds :=
-    if d_ret s =? 0 then ds_new (d_k s) (d_dim s)
+    if d_n s =? 0 then ds_new (d_k s) (d_dim s)
     else {| d_k := d_k s; d_dim := d_dim s; d_ret := d_ret s; d_n := d_n s;
-            d_levels := take_levels (d_ret s) (d_levels s) |}.
+            d_levels := ensure1 (take_levels (d_ret s) (d_levels s)) |}.
 
   (* ---- histories: merge trees of updates, for the theorems ---- *)
   Inductive hist : Type :=
@@ -213,6 +219,122 @@ Section Abstract.
     end.
 End Abstract.
 
+
+(* ---------------------------------------------------------------------------------------------- *)
+(* Serialized image (density_sketch_impl.hpp: layout comment, serialize, deserialize).             *)
+(* The codec works on sketches in WIRE FORM: every coordinate is the 64-bit pattern of the double.  *)
+(* [to_wire]/[of_wire] convert between integer coordinates (the form the kernels of this file use)  *)
+(* and patterns; DensityCodecProofs.v proves they are inverse for |c| < 2^53.                       *)
+(* ---------------------------------------------------------------------------------------------- *)
+Fixpoint le_bytes (n : nat) (x : Z) : list Z :=
+  match n with O => [] | S n' => x mod 256 :: le_bytes n' (x / 256) end.
+Fixpoint le_val (bs : list Z) : Z :=
+  match bs with [] => 0 | b :: t => b + 256 * le_val t end.
+
+Definition enc_point (p : point) : list Z := concat (map (le_bytes 8) p).
+Definition enc_level (l : list point) : list Z :=
+  le_bytes 4 (Z.of_nat (length l)) ++ concat (map enc_point l).
+(* preamble_ints, serial version 1, family 19, flags, k (u16), 2 unused bytes, dim (u32) *)
+Definition enc_header (pre flags : Z) (s : ds) : list Z :=
+  [pre; 1; 19; flags] ++ le_bytes 2 (d_k s) ++ [0; 0] ++ le_bytes 4 (d_dim s).
+Definition enc (s : ds) : list Z :=
+  if d_n s =? 0 then enc_header 3 4 s                       (* is_empty(): short preamble, flag 1 << IS_EMPTY *)
+  else enc_header 6 0 s ++ le_bytes 4 (d_ret s) ++ le_bytes 8 (d_n s) ++ concat (map enc_level (d_levels s)).
+(* serialize(header_size_bytes): h reserved zero bytes, then the image *)
+Definition enc_hdr (h : Z) (s : ds) : list Z := repeat 0 (Z.to_nat h) ++ enc s.
+
+(* -- reader: a parser returns the value and the unread rest -- *)
+Definition parser (A : Type) := list Z -> option (A * list Z).
+Definition pret {A} (a : A) : parser A := fun b => Some (a, b).
+Definition pbind {A B} (p : parser A) (f : A -> parser B) : parser B :=
+  fun b => match p b with Some (a, r) => f a r | None => None end.
+Fixpoint take_n (n : nat) : parser (list Z) :=
+  fun b => match n with
+           | O => Some ([], b)
+           | S n' => match b with
+                     | [] => None
+                     | x :: t => match take_n n' t with Some (l, r) => Some (x :: l, r) | None => None end
+                     end
+           end.
+Definition rd (n : nat) : parser Z := pbind (take_n n) (fun l => pret (le_val l)).
+(* ensure_minimum_memory(remaining, m) of the bytes path; the stream path (la = false) has no such look-ahead *)
+Definition need (la : bool) (m : Z) : parser unit :=
+  fun b => if la && (Z.of_nat (length b) <? m) then None else Some (tt, b).
+Definition guard (c : bool) : parser unit := fun b => if c then Some (tt, b) else None.
+
+Fixpoint rd_words (n : nat) : parser (list Z) :=
+  match n with
+  | O => pret []
+  | S n' => pbind (rd 8) (fun w => pbind (rd_words n') (fun t => pret (w :: t)))
+  end.
+Fixpoint rd_points (c : nat) (dim : nat) : parser (list point) :=
+  match c with
+  | O => pret []
+  | S c' => pbind (rd_words dim) (fun p => pbind (rd_points c' dim) (fun t => pret (p :: t)))
+  end.
+(* while (num_to_read > 0) { level_size; ensure(level_size * pt_size); points; num_to_read -= level_size }
+   followed by "if (num_to_read != 0) throw".  Every iteration reads the 4-byte level size, so [fuel] = number of
+   input bytes is never exhausted (DensityCodecProofs.rd_levels_fuel). *)
+Fixpoint rd_levels (la : bool) (fuel : nat) (dim : Z) (to_read : Z) : parser (list (list point)) :=
+  if to_read <=? 0 then pbind (guard (to_read =? 0)) (fun _ => pret [])
+  else match fuel with
+       | O => fun _ => None
+       | S f =>
+           pbind (rd 4) (fun c =>
+           pbind (need la (c * (8 * dim))) (fun _ =>
+           pbind (rd_points (Z.to_nat c) (Z.to_nat dim)) (fun l =>
+           pbind (rd_levels la f dim (to_read - c)) (fun t => pret (l :: t)))))
+       end.
+
+Notation "x <- p ;; q" := (pbind p (fun x => q)) (at level 61, p at next level, right associativity).
+
+Definition dec_p (la : bool) (fuel : nat) : parser ds :=
+  _ <- need la 12 ;;
+  pre <- rd 1 ;; ver <- rd 1 ;; fam <- rd 1 ;; flags <- rd 1 ;; k <- rd 2 ;; _ <- rd 2 ;; dim <- rd 4 ;;
+  _ <- guard (2 <=? k) ;;                                             (* check_k *)
+  _ <- guard (ver =? 1) ;;                                            (* check_serial_version *)
+  _ <- guard (fam =? 19) ;;                                           (* check_family_id *)
+  let empty := Z.testbit flags 2 in
+  _ <- guard ((empty && (pre =? 3)) || (negb empty && (pre =? 6))) ;; (* check_header_validity *)
+  if empty then pret (ds_new k dim) else
+  _ <- need la 12 ;;                                                  (* PREAMBLE_INTS_LONG * 4 = 24 bytes in total *)
+  ret <- rd 4 ;; n <- rd 8 ;;
+  _ <- need la (ret * (8 * dim)) ;;
+  ls <- rd_levels la fuel dim ret ;;
+  pret {| d_k := k; d_dim := dim; d_ret := ret; d_n := n; d_levels := ensure1 ls |}.
+
+(* deserialize(bytes, size) [la = true] and deserialize(istream) [la = false]: the sketch and the unread rest *)
+Definition dec (la : bool) (b : list Z) : option (ds * list Z) := dec_p la (length b) b.
+
+(* -- doubles with integer values <-> their IEEE-754 binary64 patterns (exact for |z| < 2^53) -- *)
+Definition dbits (z : Z) : Z :=
+  if z =? 0 then 0 else
+  let a := Z.abs z in
+  let e := Z.log2 a in
+  (if z <? 0 then 2 ^ 63 else 0) + (e + 1023) * 2 ^ 52 + (a - 2 ^ e) * 2 ^ (52 - e).
+Definition dint (w : Z) : option Z :=
+  if w =? 0 then Some 0 else
+  let sg := w / 2 ^ 63 in
+  let e := (w / 2 ^ 52) mod 2048 - 1023 in
+  let m := w mod 2 ^ 52 in
+  if (0 <=? e) && (e <=? 52) && (m mod 2 ^ (52 - e) =? 0) && (sg <=? 1) && (0 <=? w)
+  then Some ((if sg =? 1 then -1 else 1) * (2 ^ e + m / 2 ^ (52 - e))) else None.
+
+Fixpoint opt_all {A B} (f : A -> option B) (l : list A) : option (list B) :=
+  match l with
+  | [] => Some []
+  | x :: t => match f x, opt_all f t with Some y, Some t' => Some (y :: t') | _, _ => None end
+  end.
+
+Definition map_levels (f : Z -> Z) (ls : list (list point)) : list (list point) := map (map (map f)) ls.
+Definition to_wire (s : ds) : ds :=
+  {| d_k := d_k s; d_dim := d_dim s; d_ret := d_ret s; d_n := d_n s; d_levels := map_levels dbits (d_levels s) |}.
+Definition of_wire (w : ds) : option ds :=
+  match opt_all (opt_all (opt_all dint)) (d_levels w) with
+  | Some ls => Some {| d_k := d_k w; d_dim := d_dim w; d_ret := d_ret w; d_n := d_n w; d_levels := ls |}
+  | None => None
+  end.
+
 (* ---- concrete kernels (scaled by 2^20) and line protocol ---- *)
 Definition scale : Z := 1048576.
 
@@ -240,7 +362,8 @@ Definition kern (kind : Z) : point -> point -> Z :=
   end.
 
 (* register: kernel kind, sketch, ghost log of all inputs, ghost flag "some compaction happened in the history",
-   ghost count of inputs whose n was lost by merging a source with num_retained = 0 *)
+   ghost count of inputs that came in through a merge source with num_retained = 0 (the sources that the code
+   before the repair "is_empty() <=> n_ == 0" skipped; only used by the oracle to name that failure) *)
 Record full := { f_kind : Z; f_ds : ds; f_log : list point; f_comp : bool; f_lost : Z }.
 
 Definition mk_env (e : line) : env := {| e_toks := e; e_short := false |}.
@@ -264,6 +387,22 @@ Fixpoint insert_sorted (x : list Z) (l : list (list Z)) : list (list Z) :=
 Definition isort (l : list (list Z)) : list (list Z) := fold_right insert_sorted [] l.
 
 Definition abs_kern (kind : Z) (a b : point) : Z := Z.abs (kern kind a b).
+
+(* result of a deserialization: R = 1, bytes consumed (stream path; 0 on the bytes path), k, dim, num_retained, n,
+   is_estimation_mode, then the iteration in order (weight, coordinate patterns); the register is set when every
+   coordinate is an integer-valued double (the form the kernels of this model understand), dropped otherwise *)
+Definition decode_into (s : list (Z * full)) (r2 kind path : Z) (b : list Z) : list (Z * full) * outline :=
+  match dec (path =? 0) b with
+  | None => (s, (refused, []))
+  | Some (w, rest) =>
+      let used := if path =? 0 then 0 else Z.of_nat (length b) - Z.of_nat (length rest) in
+      let R := [1; used; d_k w; d_dim w; d_ret w; d_n w; bz (1 <? Z.of_nat (length (d_levels w)))] ++
+               concat (map (fun pw => snd pw :: fst pw) (ds_iterate w)) in
+      match of_wire w with
+      | Some d => (reg_set s r2 {| f_kind := kind; f_ds := d; f_log := concat (d_levels d); f_comp := true; f_lost := 0 |}, (R, []))
+      | None => (reg_del s r2, (R, []))
+      end
+  end.
 
 Definition step (s : list (Z * full)) (o el : line) : list (Z * full) * outline :=
   let e := mk_env el in
@@ -294,13 +433,14 @@ Definition step (s : list (Z * full)) (o el : line) : list (Z * full) * outline 
           match ds_merge (kern (f_kind f)) (f_ds f) (f_ds g) e with
           | Some (d', e') =>
               if env_ok e' then
-                let ign := d_ret (f_ds g) =? 0 in
+                let ign := d_n (f_ds g) =? 0 in
+                let zr := d_ret (f_ds g) =? 0 in
                 let merged := {| d_k := d_k (f_ds f); d_dim := d_dim (f_ds f); d_ret := d_ret (f_ds f) + d_ret (f_ds g);
                                  d_n := d_n (f_ds f) + d_n (f_ds g);
                                  d_levels := zip_app (d_levels (f_ds f)) (d_levels (f_ds g)) |} in
                 (reg_set s r {| f_kind := f_kind f; f_ds := d'; f_log := f_log f ++ f_log g;
                                 f_comp := f_comp f || f_comp g || (negb ign && will_compact merged);
-                                f_lost := f_lost f + (if ign then Z.of_nat (length (f_log g)) else f_lost g) |},
+                                f_lost := f_lost f + (if zr then Z.of_nat (length (f_log g)) else f_lost g) |},
                  (ok, []))
               else (s, ([-3], []))
           | None => noenv (s, (refused, []))
@@ -311,7 +451,7 @@ Definition step (s : list (Z * full)) (o el : line) : list (Z * full) * outline 
       noenv match reg_get s r with
       | Some f =>
           let d := f_ds f in
-          (s, ([d_n d; d_ret d; bz (1 <? Z.of_nat (length (d_levels d))); bz (d_ret d =? 0); d_k d; d_dim d],
+          (s, ([d_n d; d_ret d; bz (1 <? Z.of_nat (length (d_levels d))); bz (d_n d =? 0); d_k d; d_dim d],
                [Z.of_nat (length (f_log f)); f_lost f; bz (f_comp f); Z.of_nat (length (d_levels d))]))
       | None => (s, (refused, []))
       end
@@ -340,10 +480,25 @@ Definition step (s : list (Z * full)) (o el : line) : list (Z * full) * outline 
       noenv match reg_get s r with
       | Some f =>
           let d := ds_roundtrip (f_ds f) in
-          let fresh := d_ret (f_ds f) =? 0 in
+          let fresh := d_n (f_ds f) =? 0 in
           (reg_set s r2 {| f_kind := f_kind f; f_ds := d; f_log := if fresh then [] else f_log f;
                            f_comp := if fresh then false else f_comp f; f_lost := if fresh then 0 else f_lost f |},
            (ok, []))
+      | None => (s, (refused, []))
+      end
+  | 8 :: r :: path :: h :: _ =>                       (* serialize: bytes path with h header bytes (path 0) or stream (path 1) *)
+      noenv match reg_get s r with
+      | Some f => (s, (1 :: enc_hdr (if path =? 0 then h else 0) (to_wire (f_ds f)), []))
+      | None => (s, (refused, []))
+      end
+  | 10 :: r2 :: kind :: path :: b =>                  (* deserialize the given bytes (path 0: bytes, 1: stream) into r2 *)
+      noenv (decode_into s r2 kind path b)
+  | 11 :: r :: r2 :: path :: cut :: extra =>          (* deserialize (first cut bytes of, if cut >= 0) serialize(r) ++ extra *)
+      noenv match reg_get s r with
+      | Some f =>
+          let img := enc (to_wire (f_ds f)) in
+          let img := if cut <? 0 then img else firstn (Z.to_nat cut) img in
+          decode_into s r2 (f_kind f) path (img ++ extra)
       | None => (s, (refused, []))
       end
   | 98 :: _ => noenv (s, (ok, []))                    (* scripted draws: harness only *)
